@@ -437,7 +437,9 @@ class Mesh:
 
             marked_space.sort(key=lambda elem: elem.level_space)
             for elem in marked_space:
-                assert not elem.children
+                # Elements refined in the meantime by the conformity closure
+                # are skipped; their children are handled in the next sweep.
+                if elem.children: continue
                 self.refine_space(elem)
         print('Grading added {} elements'.format(len(self.leaf_elements) - N))
 
